@@ -3,20 +3,46 @@ failing input class; any other violation of the same property is still reported.
 
 
 def _cells_differ_only_by(real_rows, expected_rows, pred):
+  """the two row lists are equal as multisets once every differing cell pair (real, expected)
+  satisfies pred; at least one such pair exists."""
   if len(real_rows) != len(expected_rows):
     return False
+  remaining = [list(e) for e in expected_rows]
   hit = False
-  for r, e in zip(real_rows, expected_rows):
+
+  def row_ok(r, e):
     if len(r) != len(e):
-      return False
+      return None
+    used = False
     for a, b in zip(r, e):
-      if a == b:
+      if a == b or (isinstance(a, (list, tuple)) and isinstance(b, (list, tuple)) and list(a) == list(b)):
         continue
       if pred(a, b):
-        hit = True
+        used = True
       else:
-        return False
-  return hit
+        return None
+    return used
+  # exact matches first, then matches that need the allowed deviation
+  for want_dev in (False, True):
+    for r in list(real_rows):
+      if r is None:
+        continue
+    pending = []
+    for r in real_rows:
+      found = None
+      for i, e in enumerate(remaining):
+        ok = row_ok(r, e)
+        if ok is not None and ok == want_dev:
+          found = i
+          break
+      if found is None:
+        pending.append(r)
+      else:
+        if want_dev:
+          hit = True
+        remaining.pop(found)
+    real_rows = pending
+  return hit and not real_rows and not remaining
 
 
 def list_of_nothing(finding, replay, facts):
